@@ -138,7 +138,14 @@ fn drive(rt: &mut Runtime, k: usize, ret: &V, printed: &mut String, seen_k: &mut
                     }
                     Call::Fn(kk, args) => {
                         *seen_k = kk.to_string();
-                        *seen_args = if args.is_empty() { "()".into() } else { args.iter().map(canon).collect::<Vec<_>>().join(" ") };
+                        // a program may call the host function more than once: the calls are listed in order
+                        let this = if args.is_empty() { "()".to_string() } else { args.iter().map(canon).collect::<Vec<_>>().join(" ") };
+                        if seen_args == "-" {
+                            *seen_args = this;
+                        } else {
+                            seen_args.push_str(" ;; ");
+                            seen_args.push_str(&this);
+                        }
                         if kk != k {
                             return "wrong-function".into();
                         }
